@@ -5,6 +5,7 @@ package main
 import (
 	"fmt"
 	"go/types"
+	"strconv"
 	"strings"
 
 	"golang.org/x/tools/go/ssa"
@@ -219,7 +220,62 @@ func init() {
 		return Str{s.b[lo:hi:hi]}
 	}
 	intrinsics["strconv.Atoi"] = func(x *Exec, a []Value) Value { return x.parseInt(a[0].(Str), "Atoi") }
-	intrinsics["strconv.ParseInt"] = func(x *Exec, a []Value) Value { return x.parseInt(a[0].(Str), "ParseInt") }
+	intrinsics["strconv.ParseInt"] = func(x *Exec, a []Value) Value {
+		base, bits := a[1].(*Term), a[2].(*Term)
+		if base.op != OpConst || bits.op != OpConst {
+			x.engineErr("strconv.ParseInt with a symbolic base or size")
+		}
+		if str, ok := a[0].(Str).concrete(); ok {
+			// concrete text: the real library decides (every base, every size, range errors)
+			v, err := strconv.ParseInt(str, int(sval(base.w, base.k)), int(sval(bits.w, bits.k)))
+			if err != nil {
+				return Tuple{x.intConst(v), x.newErrS(err.Error(), "")}
+			}
+			return Tuple{x.intConst(v), nilErr}
+		}
+		if b := sval(base.w, base.k); b != 10 {
+			x.engineErr("strconv.ParseInt of symbolic text in base %d", b)
+		}
+		r := x.parseInt(a[0].(Str), "ParseInt").(Tuple)
+		if n := sval(bits.w, bits.k); n != 0 && n != 64 && r[1].(Iface).t == nil {
+			// narrower result type: values outside it are range errors (the value is clamped)
+			v := r[0].(*Term)
+			st := x.c.st
+			hi := int64(1)<<(uint(n)-1) - 1
+			if x.c.Branch(st.Cmp(OpSlt, st.Const(64, uint64(hi)), v)) {
+				return Tuple{x.intConst(hi), x.newErrS("strconv.ParseInt: value out of range", "")}
+			}
+			if x.c.Branch(st.Cmp(OpSlt, v, st.Const(64, uint64(-hi-1)))) {
+				return Tuple{x.intConst(-hi - 1), x.newErrS("strconv.ParseInt: value out of range", "")}
+			}
+		}
+		return r
+	}
+	intrinsics["strconv.ParseUint"] = func(x *Exec, a []Value) Value {
+		base, bits := a[1].(*Term), a[2].(*Term)
+		str, ok := a[0].(Str).concrete()
+		if !ok || base.op != OpConst || bits.op != OpConst {
+			// symbolic text: decimal digits only, up to 18 of them (no overflow possible), 64-bit result
+			if base.op == OpConst && bits.op == OpConst && sval(base.w, base.k) == 10 && (sval(bits.w, bits.k) == 64 || sval(bits.w, bits.k) == 0) && len(a[0].(Str).b) <= 18 {
+				s := a[0].(Str)
+				if len(s.b) == 0 {
+					return Tuple{x.intConst(0), x.newErrS("strconv.ParseUint: invalid syntax", "")}
+				}
+				for _, d := range s.b {
+					if !x.c.Branch(x.isDigit(d)) {
+						return Tuple{x.intConst(0), x.newErrS("strconv.ParseUint: invalid syntax", "")}
+					}
+				}
+				return Tuple{x.horner(s.b), nilErr}
+			}
+			x.engineErr("strconv.ParseUint of long or non-decimal symbolic text")
+		}
+		v, err := strconv.ParseUint(str, int(sval(base.w, base.k)), int(sval(bits.w, bits.k)))
+		if err != nil {
+			return Tuple{x.c.st.Const(64, v), x.newErrS(err.Error(), "")}
+		}
+		return Tuple{x.c.st.Const(64, v), nilErr}
+	}
 
 	intrinsics["encoding/hex.EncodeToString"] = func(x *Exec, a []Value) Value {
 		src := a[0].(Slice)
